@@ -213,6 +213,19 @@ func c18Scenario(use string, dotu bool, part, parts int) Scenario {
 					rpc(&wire.Msg{Type: wire.Tstat, Fid: fid})
 					rpc(twalk(0, fid, 40, "canary"))
 					rpc(twalk(0, fid, 41, "..", "canary"))
+					// further up: a fid whose idea of its own depth is wrong gets past the root here
+					for n := 2; n <= 4; n++ {
+						el := []string{}
+						for i := 0; i < n; i++ {
+							el = append(el, "..")
+						}
+						if r := rpc(twalk(0, fid, 46, append(el, "canary")...)); r != nil && r.Type == wire.Rwalk && len(r.Wqid) == n+1 {
+							if o := rpc(&wire.Msg{Type: wire.Topen, Fid: 46, Mode: 0}); o != nil && o.Type == wire.Ropen {
+								rpc(&wire.Msg{Type: wire.Tread, Fid: 46, Offset: 0, Count: 4096})
+							}
+							rpc(&wire.Msg{Type: wire.Tclunk, Fid: 46})
+						}
+					}
 					if r := rpc(twalk(0, fid, 42)); r != nil && r.Type == wire.Rwalk {
 						if o := rpc(&wire.Msg{Type: wire.Topen, Fid: 42, Mode: 0}); o != nil && o.Type == wire.Ropen {
 							rpc(&wire.Msg{Type: wire.Tread, Fid: 42, Offset: 0, Count: 4096})
@@ -314,7 +327,8 @@ func c18Scenario(use string, dotu bool, part, parts int) Scenario {
 						}
 						st := wire.Stat{Type: 0xFFFF, Dev: 0xFFFFFFFF, Qid: wire.Qid{Type: 0xFF, Vers: 0xFFFFFFFF, Path: ^uint64(0)}, Mode: 0xFFFFFFFF, Atime: 0xFFFFFFFF, Mtime: 0xFFFFFFFF, Length: ^uint64(0), Name: hostile, NUid: 0xFFFFFFFF, NGid: 0xFFFFFFFF, NMuid: 0xFFFFFFFF}
 						rpc(&wire.Msg{Type: wire.Twstat, Fid: 15, Stat: st})
-						rpc(&wire.Msg{Type: wire.Tstat, Fid: 15})
+						// wherever the fid is now (moved inside the export, or not moved at all), it stays confined
+						access(15)
 						rpc(&wire.Msg{Type: wire.Tclunk, Fid: 15})
 					}
 				}
@@ -388,7 +402,7 @@ func init() {
 	_ = vs.Active
 	register(&Property{ID: "C18", Level: "exploration",
 		Technique: "bounded-exhaustive enumeration of hostile names in every position, executed on the real Ufs over a scratch export with canaries outside",
-		Rule:      "names = every sequence of <= 3 components over {'..', '.', '', 'x' (file), 'd' (directory), 'nope'} joined by '/', with and without leading and trailing '/', plus 4- and 5-level '..' chains and 11 absolute host paths (the export, its spelling as a prefix of a sibling file and of a sibling directory (absolute and through '..'), its parent and neighbours, '/etc', '/') (about 1000 names), used as attach name, single walk element and element list (<= 4, plus two more '..') from the root and from depth 1 and 2, create name for files, directories, symlinks and hard links, and wstat rename target; every resulting fid is then stat'ed, walked towards the canaries, listed/read, written, created in, wstat'ed and removed. Oracle: nothing outside the export changes (names, contents, modes, mtimes), no reply carries a qid or data of an outside object, '..' at the root is the root. non-trivial = names x uses executed",
+		Rule:      "names = every sequence of <= 3 components over {'..', '.', '', 'x' (file), 'd' (directory), 'nope'} joined by '/', with and without leading and trailing '/', plus 4- and 5-level '..' chains and 11 absolute host paths (the export, its spelling as a prefix of a sibling file and of a sibling directory (absolute and through '..'), its parent and neighbours, '/etc', '/') (about 1000 names), used as attach name, single walk element and element list (<= 4, plus two more '..') from the root and from depth 1 and 2, create name for files, directories, symlinks and hard links, and wstat rename target (the renamed fid is then used like any other); every resulting fid is then stat'ed, walked towards the canaries, listed/read, written, created in, wstat'ed and removed. Oracle: nothing outside the export changes (names, contents, modes, mtimes), no reply carries a qid or data of an outside object, '..' at the root is the root. non-trivial = names x uses executed",
 		Assumptions: []string{"the export is nested 12 levels below the scratch base, deeper than any generated '..' chain (the checks run as root on the real file system)", "the exported tree contains no symlink leaving it (the property's premise); symlink targets supplied by the client are not followed by the check"},
 		Scenarios:   c18Scenarios, QuickS: 110, ThoroughS: 900})
 }
